@@ -122,6 +122,21 @@ def canon_value(v):
     return tuple(canon_item(i) for i in v)
 
 
+def nan_keys_as_double(v):
+    """the value with every xs:float NaN KEY retyped to xs:double (only used to CLASSIFY a mismatch:
+    'the only difference is the type of a NaN key')"""
+    out = []
+    for i in v:
+        if is_map(i):
+            out.append({'m': tuple({'k': ({'a': 'double', 'x': 'NaN'} if e['k']['x'] == 'NaN' else e['k']),
+                                    'v': nan_keys_as_double(e['v'])} for e in i['m'])})
+        elif is_arr(i):
+            out.append({'r': tuple(nan_keys_as_double(x) for x in i['r'])})
+        else:
+            out.append(i)
+    return tuple(out)
+
+
 def canon_result(v, bag):
     c = canon_value(v)
     if bag == 'top':
@@ -569,6 +584,10 @@ def result_mismatch(expected: list, obs):
         bag = r.get('bag')
         if canon_result(got, bag) == canon_result(r['v'], bag):
             return 'api:' + notes[0] if notes else None
+    for r in expected:
+        if 'v' in r and canon_result(nan_keys_as_double(got), r.get('bag')) == \
+                canon_result(nan_keys_as_double(r['v']), r.get('bag')):
+            return 'value:nan_key_type'      # right but for the type (xs:float / xs:double) of a NaN key
     return 'value'
 
 
@@ -724,6 +743,8 @@ def features(action, args, src_store, expected, binding, check, outcome) -> dict
             keys_in(r['v'], okeys)
     allkeys = pkeys + okeys
     f.update(key_flags(allkeys))
+    # the PARAMETER key and a key of an operand map are a boolean / numeric pair with equal Python values
+    f['param_bool_num'] = any(key_flags([pk, ok])['bool_num_keys'] for pk in pkeys for ok in okeys)
     if pkeys:
         f['key_type'] = pkeys[0]['a'] if len(pkeys) == 1 else 'several'
     # relation of the parameter key(s) to the stored keys: absent / identical / same key of another type
@@ -1010,7 +1031,8 @@ def replay_component(job):
             for r, real in zip(seeds, st):
                 got = proj_value(real)
                 if canon_value(got) != canon_value(r['v']):
-                    problem = ('value', got)
+                    only_nan = canon_value(nan_keys_as_double(got)) == canon_value(nan_keys_as_double(r['v']))
+                    problem = ('value:nan_key_type' if only_nan else 'value', got)
         if problem and start_sid != init_sid:
             pass        # reported by the root job of this component
         elif problem:
